@@ -83,7 +83,7 @@ def run(chk):
         if d:
             chk.disagree("Reader.Model.read_many vs hy.read_many", text, d, ires[0])
 
-    n_prog = 40000 if thorough else 3000
+    n_prog = 20000 if thorough else 3000
     prev = None
     for i in range(n_prog):
         p = gen.program()
